@@ -91,7 +91,10 @@ def check(prop, tier, verif_seed, budget_override=None):
           f'budget={plan["budget_s"]}s workers={runner.nworkers()}', flush=True)
 
     tasks = make_tasks(mod, plan, verif_seed)
-    agg, info = runner.run_tasks(tasks, plan['budget_s'], stop_on_violation=True)
+    stop_early = not any(k.get('property') == prop for k in load_known()['known'])
+    agg, info = runner.run_tasks(tasks, plan['budget_s'], stop_on_violation=stop_early)
+    if hasattr(mod, 'post_batch'):
+        mod.post_batch(agg)
     print(f'[{prop}] runs={agg.runs} wall={info["wall_s"]:.1f}s tasks={info["tasks_done"]} '
           f'cancelled={info["tasks_cancelled"]} violations(raw)={len(agg.violations)}', flush=True)
 
